@@ -43,3 +43,15 @@ Theorem c02_c_leb128_roundtrip : forall v avail rest, 0 <= v < 2 ^ 56 -> c_uleb_
                 Forall (fun b => 0 <= b < 256) bytes /\
                 c_dec_leb128 (bytes ++ rest) = (v, Z.of_nat (length bytes), rest).
 Proof. exact c_leb128_roundtrip. Qed.
+
+(* closing an OBU (obu_mem_move + write_uleb_obu_size on the output buffer): header, minimal size field, payload laid end to end,
+   the callers advance by the field length, and the decoder's reader applied after the header yields the payload length *)
+Theorem c02_c_finish_obu_layout : forall H P T, let psize := Z.of_nat (length P) in let lf := c_uleb_size 10 psize in
+  psize < 2 ^ 28 -> (Z.to_nat lf <= length T)%nat ->
+  exists field, c_finish_obu (H ++ P ++ T) (length H) psize = Some (H ++ field ++ P ++ skipn (Z.to_nat lf) T, lf) /\
+                field = leb_enc 8 psize /\ Z.of_nat (length field) = lf /\ 1 <= lf <= 4 /\
+                c_dec_leb128 (field ++ P ++ skipn (Z.to_nat lf) T) = (psize, lf, P ++ skipn (Z.to_nat lf) T).
+Proof. exact c_finish_obu_layout. Qed.
+
+Theorem c02_c_finish_obu_refuses_large : forall data hdr psize, 2 ^ 28 <= psize < 2 ^ 64 -> c_finish_obu data hdr psize = None.
+Proof. exact c_finish_obu_refuses_large. Qed.
